@@ -473,7 +473,9 @@ def run(prop, tier):
         rc = max(rc, vers[p].report())
     new = sorted(s for p in props for s in vers[p].new)
     known = sorted(s for p in props for s in vers[p].known)
-    vp.write_evidence(prop, tier, "model_checking", _coverage(r, dict(known_findings=known, new_violations=new)), time.time() - t0, len(new), assumptions=ASSUMPTIONS)
+    # (evidence of the catalogue properties themselves is written by the checks that join this engine through part())
+    vp.write_evidence("DUO" if prop == "DUO" else "DUO_" + prop, tier, "model_checking", _coverage(r, dict(known_findings=known, new_violations=new)),
+                      time.time() - t0, len(new), assumptions=ASSUMPTIONS)
     _check_drift(r, any(v.new for v in vers.values()))
     return rc
 
